@@ -153,8 +153,38 @@ func runFastaRoute(c *Case, kind string) result {
 			return res
 		}
 		rows := []string{"query,mutations"}
+		// one case in three takes the pairs from the binary's `-o stdout` instead (4 threads, straggler jitter): the
+		// stream holds reference and query record alternately, in input order
+		var fromStdout map[string]string
+		if idSeed(c.ID)%3 == 0 && opts.gobin != "" {
+			os.MkdirAll(dir, 0755)
+			os.WriteFile(filepath.Join(dir, "a.sam"), []byte(txt), 0644)
+			os.WriteFile(filepath.Join(dir, "r.fa"), []byte(refTxt), 0644)
+			os.Setenv("VERIF_JITTER_SEED", fmt.Sprint(idSeed(c.ID)%100000))
+			o, se, code, to := runCLI(60*time.Second, "", "sam", "toPairAlign", "-s", filepath.Join(dir, "a.sam"), "-r", filepath.Join(dir, "r.fa"), "-o", "stdout", "-t", "4")
+			os.Unsetenv("VERIF_JITTER_SEED")
+			if to {
+				return result{status: "timeout"}
+			}
+			if code != 0 {
+				return result{status: "err:" + firstLine(se)}
+			}
+			fromStdout = map[string]string{}
+			recsTxt := strings.Split(strings.TrimPrefix(o, ">"), "\n>")
+			for i := 0; i+1 < len(recsTxt); i += 2 {
+				qn := strings.SplitN(recsTxt[i+1], "\n", 2)[0]
+				fromStdout[qn] = ">" + recsTxt[i] + "\n>" + strings.TrimSuffix(recsTxt[i+1], "\n") + "\n"
+			}
+		}
 		for _, n := range blockNames(recs) {
 			b, err := os.ReadFile(filepath.Join(dir, n+".fasta"))
+			if fromStdout != nil {
+				pair, ok := fromStdout[n]
+				if !ok {
+					return result{status: "err:toPairAlign -o stdout wrote no pair for " + n}
+				}
+				b, err = []byte(pair), nil
+			}
 			if err != nil {
 				return result{status: "err:" + err.Error()}
 			}
